@@ -26,22 +26,6 @@ fn is_skipped_macro(m: &Macro) -> bool {
 }
 
 impl<'a> Tr<'a> {
-    /// the value of the function: for `&mut self` methods the new self (paired with the result)
-    pub fn finish(&mut self, v: Val, env: &Env) -> R<String> {
-        let rt = self.ret_ty.clone();
-        join(&v.ty, &rt).map_err(|m| format!("return value: {}", m))?;
-        if self.mut_self {
-            let s = env.get("self").map(|x| x.coq.clone()).unwrap_or_else(|| "self'".into());
-            if rt == Ty::Unit {
-                Ok(s)
-            } else {
-                Ok(format!("({}, {})", s, v.s))
-            }
-        } else {
-            Ok(v.s)
-        }
-    }
-
     pub fn expr_k(&mut self, e: &Expr, env: &Env, hint: Option<&Ty>, k: K) -> R<String> {
         match e {
             Expr::Paren(p) => self.expr_k(&p.expr, env, hint, k),
@@ -94,11 +78,43 @@ impl<'a> Tr<'a> {
             }
             Expr::Assign(a) => self.assign_k(&a.left, None, &a.right, env, e, k),
             Expr::Binary(b) if is_compound(&b.op) => self.assign_k(&b.left, Some(&b.op), &b.right, env, e, k),
-            Expr::MethodCall(m) if self.mut_methods.contains(&m.method.to_string()) && place_root(&m.receiver).map(|r| env.get(&r).is_some()).unwrap_or(false) => {
-                self.mut_call_k(m, env, e, k)
-            }
             Expr::Macro(m) if is_skipped_macro(&m.mac) => k(self, unit()),
+            Expr::MethodCall(m) if Self::get_mut_chain(m).is_some() => self.get_mut_chain_k(m, env, e, k),
+            Expr::Loop(l) => {
+                if l.label.is_some() {
+                    return Err(unsupported(e, "labelled loop"));
+                }
+                self.loop_k(None, &l.body, env, e, k)
+            }
+            Expr::While(w) => {
+                if w.label.is_some() || matches!(&*w.cond, Expr::Let(_)) {
+                    return Err(unsupported(e, "labelled loop / `while let`"));
+                }
+                self.loop_k(Some(&w.cond), &w.body, env, e, k)
+            }
+            Expr::Break(b) => {
+                if b.label.is_some() || b.expr.is_some() {
+                    return Err(unsupported(e, "`break` with a label or a value"));
+                }
+                match self.loops.last() {
+                    Some((_, brk)) => Ok(brk.clone()),
+                    None => Err(unsupported(e, "`break` outside a loop")),
+                }
+            }
+            Expr::Continue(c) => {
+                if c.label.is_some() {
+                    return Err(unsupported(e, "`continue` with a label"));
+                }
+                match self.loops.last() {
+                    Some((cont, _)) => Ok(cont.clone()),
+                    None => Err(unsupported(e, "`continue` outside a loop")),
+                }
+            }
             _ => {
+                let eff = self.effects_expr(e);
+                if eff.ret || !eff.assigned.is_empty() {
+                    return self.hoist_k(e, env, hint, k);
+                }
                 let v = self.pure(e, env, hint)?;
                 k(self, v)
             }
@@ -136,7 +152,7 @@ impl<'a> Tr<'a> {
                                     Pat::Ident(i) if i.subpat.is_none() => {
                                         let c = self.fresh(&i.ident.to_string());
                                         binders.push_str(&format!(" ({} : {})", c, self.t.coq_ty(&t)?));
-                                        env2.push(&i.ident.to_string(), Var { coq: c, ty: t.clone() });
+                                        env2.push(&i.ident.to_string(), var(c, t.clone()));
                                     }
                                     _ => return Err(unsupported(first, "closure parameter that is not `name: type`")),
                                 }
@@ -153,9 +169,25 @@ impl<'a> Tr<'a> {
                     let n = pi.ident.to_string();
                     let c = self.fresh(&n);
                     let mut env3 = env.clone();
-                    env3.push(&n, Var { coq: c.clone(), ty: Ty::Fn(ptys, Box::new(body.ty.clone())) });
+                    env3.push(&n, var(c.clone(), Ty::Fn(ptys, Box::new(body.ty.clone()))));
                     let r = self.stmts_k(rest, &env3, hint, k)?;
                     return Ok(let_in(&c, true, &format!("(fun{} =>\n{})", binders, body.s), &r));
+                }
+                // `let x = e.saturating_as();` / `.into()` without annotation: the type comes from the first use of x as an
+                // argument of a configured function
+                let ann = match (&ann, pat, &*init.expr) {
+                    (None, Pat::Ident(pi), Expr::MethodCall(mc)) if (mc.method == "saturating_as" || mc.method == "into") && mc.turbofish.is_none() => {
+                        self.infer_from_use(&pi.ident.to_string(), rest)
+                    }
+                    _ => ann,
+                };
+                let fa = self.fn_assigned.clone();
+                if let Some((env2, lets)) = self.alias_let(pat, &init.expr, env, &fa)? {
+                    let mut r = self.stmts_k(rest, &env2, hint, k)?;
+                    for (c, v) in lets.iter().rev() {
+                        r = let_in(c, true, v, &r);
+                    }
+                    return Ok(r);
                 }
                 self.expr_k(&init.expr, env, ann.as_ref(), &|tr, v| {
                     let vty = match &ann {
@@ -183,7 +215,7 @@ impl<'a> Tr<'a> {
                 let n = c.ident.to_string();
                 let cq = self.fresh(&n);
                 let mut env2 = env.clone();
-                env2.push(&n, Var { coq: cq.clone(), ty: vty });
+                env2.push(&n, var(cq.clone(), vty));
                 let r = self.stmts_k(rest, &env2, hint, k)?;
                 Ok(let_in(&cq, true, &v.s, &r))
             }
@@ -208,6 +240,121 @@ impl<'a> Tr<'a> {
         let simple = matches!(pat, Pat::Ident(_) | Pat::Wild(_));
         let rest = self.stmts_k(&body.stmts, &env2, None, &|tr, _v| tr.for_unrolled(pat, elems, i + 1, body, env, k))?;
         Ok(let_in(&ps, simple, &v.s, &rest))
+    }
+
+    /// the parameter type of the first configured function that gets the variable `name` as a direct argument
+    fn infer_from_use(&self, name: &str, rest: &[Stmt]) -> Option<Ty> {
+        struct V<'t> {
+            name: String,
+            fns: &'t Vec<FnInfo>,
+            found: Option<Ty>,
+        }
+        impl<'ast, 't> syn::visit::Visit<'ast> for V<'t> {
+            fn visit_expr_method_call(&mut self, m: &'ast ExprMethodCall) {
+                self.check(&m.method.to_string(), m.args.iter().collect());
+                syn::visit::visit_expr_method_call(self, m);
+            }
+            fn visit_expr_call(&mut self, c: &'ast ExprCall) {
+                if let Expr::Path(p) = &*c.func {
+                    if let Some(s) = p.path.segments.last() {
+                        self.check(&s.ident.to_string(), c.args.iter().collect());
+                    }
+                }
+                syn::visit::visit_expr_call(self, c);
+            }
+        }
+        impl<'t> V<'t> {
+            fn check(&mut self, fname: &str, args: Vec<&Expr>) {
+                if self.found.is_some() {
+                    return;
+                }
+                for (i, a) in args.iter().enumerate() {
+                    if let Expr::Path(p) = a {
+                        if p.path.is_ident(&self.name) {
+                            let tys: Vec<&Ty> = self.fns.iter().filter(|f| f.name == fname && f.params.len() > i).map(|f| &f.params[i].1).collect();
+                            if !tys.is_empty() && tys.iter().all(|t| *t == tys[0]) {
+                                self.found = Some(tys[0].clone());
+                            }
+                        }
+                    }
+                }
+            }
+        }
+        let mut v = V { name: name.to_string(), fns: &self.t.fns, found: None };
+        for st in rest {
+            syn::visit::Visit::visit_stmt(&mut v, st);
+        }
+        v.found
+    }
+
+    /// `slice.get_mut(i).ok_or(err).map(|b| { *b = v; })`: (slice place, index, error, closure)
+    fn get_mut_chain(m: &ExprMethodCall) -> Option<(&Expr, &Expr, &Expr, &ExprClosure)> {
+        if m.method != "map" || m.args.len() != 1 {
+            return None;
+        }
+        let cl = match &m.args[0] {
+            Expr::Closure(c) if c.inputs.len() == 1 => c,
+            _ => return None,
+        };
+        let ok = match &*m.receiver {
+            Expr::MethodCall(o) if o.method == "ok_or" && o.args.len() == 1 => o,
+            _ => return None,
+        };
+        let gm = match &*ok.receiver {
+            Expr::MethodCall(g) if g.method == "get_mut" && g.args.len() == 1 => g,
+            _ => return None,
+        };
+        Some((&gm.receiver, &gm.args[0], &ok.args[0], cl))
+    }
+
+    fn get_mut_chain_k(&mut self, m: &ExprMethodCall, env: &Env, at: &Expr, k: K) -> R<String> {
+        let (sl, idx, err, cl) = Self::get_mut_chain(m).unwrap();
+        let (root, path) = self.target_of(sl)?;
+        let sv = self.pure(sl, env, None)?;
+        let elem = match &sv.ty {
+            Ty::Slice(t) => (**t).clone(),
+            t => return Err(unsupported(at, &format!("get_mut on a value of type {}", t.show()))),
+        };
+        let iv = self.pure(idx, env, Some(&Ty::int(IntTy::Usize)))?;
+        if !iv.ty.is_int() {
+            return Err(unsupported(at, "get_mut with a range"));
+        }
+        let ev = self.pure(err, env, None)?;
+        // the closure must be `|b| { *b = value; }` (or `|b| *b = value`)
+        let pname = match &cl.inputs[0] {
+            Pat::Ident(i) => i.ident.to_string(),
+            _ => return Err(unsupported(at, "closure parameter of the get_mut idiom")),
+        };
+        let assign: &ExprAssign = match &*cl.body {
+            Expr::Assign(a) => a,
+            Expr::Block(b) if b.block.stmts.len() == 1 => match &b.block.stmts[0] {
+                Stmt::Expr(Expr::Assign(a), _) => a,
+                _ => return Err(unsupported(at, "closure body of the get_mut idiom is not a single assignment")),
+            },
+            _ => return Err(unsupported(at, "closure body of the get_mut idiom is not a single assignment")),
+        };
+        if place_root(&assign.left).as_deref() != Some(pname.as_str()) {
+            return Err(unsupported(at, "the get_mut closure assigns to something else than its parameter"));
+        }
+        let b = self.fresh(&pname);
+        let mut env2 = env.clone();
+        env2.push(&pname, var(b.clone(), elem.clone()));
+        let nv = self.pure(&assign.right, &env2, Some(&elem))?;
+        join(&nv.ty, &elem).map_err(|m| unsupported(at, &m))?;
+        let r = self.fresh("res");
+        let rty = Ty::Result(Box::new(Ty::Unit), Box::new(ev.ty.clone()));
+        let rest = k(self, Val { s: r.clone(), ty: rty })?;
+        let tmp = self.fresh("sl");
+        let rest = self.write_place(&root, &path, env, &tmp, &rest, at)?;
+        let m = format!(
+            "(match Casts.slice_get {s} {i} with\n| Some {b} => (Casts.slice_set {s} {i} {v}, inl tt)\n| None => ({s}, inr {e})\nend)",
+            s = sv.s,
+            i = iv.s,
+            b = b,
+            v = nv.s,
+            e = ev.s
+        );
+        Ok(crate::effects::let_pat(&[tmp, r], &m, &rest))
     }
 
     fn body_k(&mut self, b: &Body, env: &Env, hint: Option<&Ty>, k: K) -> R<String> {
@@ -239,14 +386,7 @@ impl<'a> Tr<'a> {
             return Ok(render(&strs));
         }
         // branches only compute a value and/or assign to outer variables: join through a tuple
-        let m: Vec<(String, Var)> = env.vars.iter().filter(|(n, _)| eff.assigned.contains(n)).map(|(n, v)| (n.clone(), v.clone())).collect();
-        // keep the innermost binding of each name only
-        let mut mm: Vec<(String, Var)> = vec![];
-        for (n, _) in m.iter() {
-            if !mm.iter().any(|(x, _)| x == n) {
-                mm.push((n.clone(), env.get(n).unwrap().clone()));
-            }
-        }
+        let mm: Vec<(String, Var)> = self.mutated_vars(&eff.assigned, env);
         let cell: RefCell<Option<Ty>> = RefCell::new(None);
         let mut strs = vec![];
         for (benv, b) in bodies.iter() {
@@ -305,11 +445,31 @@ impl<'a> Tr<'a> {
         }
     }
 
-    fn if_k(&mut self, i: &ExprIf, env: &Env, hint: Option<&Ty>, k: K) -> R<String> {
+    pub fn if_k(&mut self, i: &ExprIf, env: &Env, hint: Option<&Ty>, k: K) -> R<String> {
         let else_body = match &i.else_branch {
             Some((_, e)) => Body::Expr(e),
             None => Body::Empty,
         };
+        {
+            // a condition with effects (a `&mut self` call, `x.next()`, a fuelled call) is evaluated first
+            let ce: &Expr = match &*i.cond {
+                Expr::Let(l) => &l.expr,
+                c => c,
+            };
+            let eff = self.effects_expr(ce);
+            if eff.ret || !eff.assigned.is_empty() {
+                return self.expr_k(ce, env, None, &|tr, v| {
+                    let (env2, rn, cn) = tr.bind_tmp(env, &v);
+                    let mut i2 = i.clone();
+                    match &mut *i2.cond {
+                        Expr::Let(l) => *l.expr = crate::effects::path_expr_of(&rn),
+                        c => *c = crate::effects::path_expr_of(&rn),
+                    }
+                    let rest = tr.if_k(&i2, &env2, hint, k)?;
+                    Ok(crate::effects::let_pat(&[cn], &v.s, &rest))
+                });
+            }
+        }
         if let Expr::Let(l) = &*i.cond {
             let sc = self.pure(&l.expr, env, None)?;
             let mut env2 = env.clone();
@@ -327,14 +487,31 @@ impl<'a> Tr<'a> {
         self.branches(bodies, &|s| format!("if {} then\n{}\nelse\n{}", cs, s[0], s[1]), env, hint, k)
     }
 
-    fn match_k(&mut self, m: &ExprMatch, env: &Env, hint: Option<&Ty>, k: K) -> R<String> {
+    pub fn match_k(&mut self, m: &ExprMatch, env: &Env, hint: Option<&Ty>, k: K) -> R<String> {
+        {
+            let eff = self.effects_expr(&m.expr);
+            if eff.ret || !eff.assigned.is_empty() {
+                return self.expr_k(&m.expr, env, None, &|tr, v| {
+                    let (env2, rn, cn) = tr.bind_tmp(env, &v);
+                    let mut m2 = m.clone();
+                    *m2.expr = crate::effects::path_expr_of(&rn);
+                    let rest = tr.match_k(&m2, &env2, hint, k)?;
+                    Ok(crate::effects::let_pat(&[cn], &v.s, &rest))
+                });
+            }
+        }
         let sc = self.pure(&m.expr, env, None)?;
+        if m.arms.iter().any(|a| a.guard.is_some()) {
+            return self.guarded_match_k(&sc, &m.arms.iter().collect::<Vec<_>>(), env, hint, k);
+        }
+        self.plain_match_k(&sc, &m.arms.iter().collect::<Vec<_>>(), None, env, hint, k)
+    }
+
+    /// a match without guards; `rest`: translation of the arms that follow (used for `| _ => rest`)
+    fn plain_match_k(&mut self, sc: &Val, arms: &[&Arm], rest: Option<&str>, env: &Env, hint: Option<&Ty>, k: K) -> R<String> {
         let mut pats = vec![];
         let mut bodies = vec![];
-        for arm in m.arms.iter() {
-            if arm.guard.is_some() {
-                return Err(unsupported(arm, "match guard"));
-            }
+        for arm in arms.iter() {
             let mut env2 = env.clone();
             let mut ps = self.bind_pat(&arm.pat, &sc.ty, &mut env2)?;
             // a top-level or-pattern is written without the surrounding parentheses
@@ -345,12 +522,16 @@ impl<'a> Tr<'a> {
             bodies.push((env2, Body::Expr(&arm.body)));
         }
         let scs = sc.s.clone();
+        let rest = rest.map(|r| r.to_string());
         self.branches(
             bodies,
             &|s| {
                 let mut out = format!("match {} with\n", scs);
                 for (p, b) in pats.iter().zip(s.iter()) {
                     out.push_str(&format!("| {} =>\n{}\n", p, b));
+                }
+                if let Some(r) = &rest {
+                    out.push_str(&format!("| _ =>\n{}\n", r));
                 }
                 out.push_str("end");
                 out
@@ -359,6 +540,57 @@ impl<'a> Tr<'a> {
             hint,
             k,
         )
+    }
+
+    /// match with guards: `pat if g => a` is `| pat => if g then a else <the arms that follow>`; the continuation is
+    /// duplicated into every arm (the arms that follow appear twice)
+    fn guarded_match_k(&mut self, sc: &Val, arms: &[&Arm], env: &Env, hint: Option<&Ty>, k: K) -> R<String> {
+        if arms.is_empty() {
+            return Err("unsupported construct: match whose last arm has a guard (non-exhaustive for the translator)".into());
+        }
+        let irrefutable = |p: &Pat| matches!(p, Pat::Wild(_) | Pat::Ident(_));
+        if arms[0].guard.is_none() {
+            // the maximal guard-free prefix is one ordinary match
+            let n = arms.iter().take_while(|a| a.guard.is_none()).count();
+            let run = &arms[..n];
+            if n == arms.len() || run.iter().any(|a| irrefutable(&a.pat)) {
+                let upto = run.iter().position(|a| irrefutable(&a.pat)).map(|i| i + 1).unwrap_or(n);
+                return self.plain_match_k(sc, &run[..upto], None, env, hint, k);
+            }
+            let rest = self.guarded_match_k(sc, &arms[n..], env, hint, k)?;
+            // continuation-duplicating strategy: arms are translated with k themselves
+            let mut pats = vec![];
+            let mut strs = vec![];
+            for arm in run.iter() {
+                let mut env2 = env.clone();
+                let mut ps = self.bind_pat(&arm.pat, &sc.ty, &mut env2)?;
+                if matches!(arm.pat, Pat::Or(_)) && ps.starts_with('(') && ps.ends_with(')') {
+                    ps = ps[1..ps.len() - 1].to_string();
+                }
+                pats.push(ps);
+                strs.push(self.expr_k(&arm.body, &env2, hint, k)?);
+            }
+            let mut out = format!("match {} with\n", sc.s);
+            for (p, b) in pats.iter().zip(strs.iter()) {
+                out.push_str(&format!("| {} =>\n{}\n", p, b));
+            }
+            out.push_str(&format!("| _ =>\n{}\nend", rest));
+            return Ok(out);
+        }
+        let arm = arms[0];
+        let (_, g) = arm.guard.as_ref().unwrap();
+        let mut env2 = env.clone();
+        let ps = self.bind_pat(&arm.pat, &sc.ty, &mut env2)?;
+        let gv = self.pure(g, &env2, Some(&Ty::Bool))?;
+        if gv.ty != Ty::Bool {
+            return Err(unsupported(&**g, "guard that is not bool"));
+        }
+        let body = self.expr_k(&arm.body, &env2, hint, k)?;
+        let rest = self.guarded_match_k(sc, &arms[1..], env, hint, k)?;
+        if irrefutable(&arm.pat) {
+            return Ok(format!("let {} := {} in\nif {} then\n{}\nelse\n{}", ps, sc.s, gv.s, body, rest));
+        }
+        Ok(format!("match {} with\n| {} =>\nif {} then\n{}\nelse\n{}\n| _ =>\n{}\nend", sc.s, ps, gv.s, body, rest, rest))
     }
 
     /// place expression -> (root variable, field path)
@@ -378,7 +610,7 @@ impl<'a> Tr<'a> {
     }
 
     /// functional update of `base` at `path`
-    fn update(&self, base: &Val, path: &[Member], new: &str, at: &Expr) -> R<String> {
+    pub fn update(&self, base: &Val, path: &[Member], new: &str, at: &Expr) -> R<String> {
         if path.is_empty() {
             return Ok(new.to_string());
         }
@@ -462,10 +694,9 @@ impl<'a> Tr<'a> {
                 t => return Err(unsupported(at, &format!("compound assignment on {}", t.show()))),
             },
         };
-        let base = Val { s: var.coq.clone(), ty: var.ty.clone() };
-        let upd = self.update(&base, &path, &newv, at)?;
+        let _ = &var;
         let r = k(self, unit())?;
-        Ok(let_in(&var.coq, true, &upd, &r))
+        self.write_place(&root, &path, env, &newv, &r, at)
     }
 
     fn mut_call_k(&mut self, m: &ExprMethodCall, env: &Env, at: &Expr, k: K) -> R<String> {
